@@ -164,10 +164,31 @@ class Pass:
 
 
 class Renderer:
-    def __init__(self, sp=''):
+    ALIASES = {'FUNC': ['FUNC', 'FUNCTION'], 'NOTEXIST': ['NOTEXIST', 'NOT_EXIST']}
+
+    def __init__(self, sp='', rnd=None):
         self.lines = []          # (depth, text)
         self.sp = sp
         self.line_of = {}        # id(stmt) -> 1-based line number
+        self.rnd = rnd           # when given: command names are written with their aliases and in any letter case, and
+                                 # parameter / argument lists with blanks around the commas
+
+    def kw(self, word):
+        r = self.rnd
+        if r is None: return word
+        dollar = word.startswith('$')
+        w = word[1:] if dollar else word
+        if r.random() < 0.35: w = r.choice(self.ALIASES.get(w, [w]))
+        c = r.random()
+        if c < 0.12: w = w.lower()
+        elif c < 0.2: w = w.capitalize()
+        elif c < 0.26: w = ''.join(ch.upper() if r.random() < 0.5 else ch.lower() for ch in w)
+        return ('$' if dollar else '') + w
+
+    def comma(self):
+        r = self.rnd
+        if r is None or r.random() < 0.7: return ','
+        return r.choice([', ', ' ,', ' , ', ',  ', '\t,'])
 
     def r(self, e): return render_expr(e, 0, False, self.sp)
 
@@ -181,37 +202,37 @@ class Renderer:
 
     def stmt(self, s, d):
         if isinstance(s, Emit):
-            if s.expr is None: self.emit(d, f'STRING {s.tag}', s)
-            else: self.emit(d, f'$STRING "{s.tag}="+({self.r(s.expr)})', s)
-        elif isinstance(s, Assign): self.emit(d, f'VAR {s.name} {self.r(s.expr)}', s)
+            if s.expr is None: self.emit(d, f'{self.kw("STRING")} {s.tag}', s)
+            else: self.emit(d, f'{self.kw("$STRING")} "{s.tag}="+({self.r(s.expr)})', s)
+        elif isinstance(s, Assign): self.emit(d, f'{self.kw("VAR")} {s.name} {self.r(s.expr)}', s)
         elif isinstance(s, IfChain):
             for i, (c, body) in enumerate(s.arms):
-                self.emit(d, f'{"IF" if i == 0 else "ELIF"} {self.r(c)}', s if i == 0 else None)
+                self.emit(d, f'{self.kw("IF" if i == 0 else "ELIF")} {self.r(c)}', s if i == 0 else None)
                 self.block(body, d + 1)
                 for b in (s.between[i] if i < len(s.between) else []): self.stmt(b, d)
             if s.els is not None:
-                self.emit(d, 'ELSE'); self.block(s.els, d + 1)
+                self.emit(d, self.kw('ELSE')); self.block(s.els, d + 1)
         elif isinstance(s, Repeat):
-            head = f'{s.kw} ' + (f'{s.var},' if s.var else '') + self.r(s.count)
+            head = f'{self.kw(s.kw)} ' + (f'{s.var},' if s.var else '') + self.r(s.count)
             self.emit(d, head, s); self.block(s.body, d + 1)
         elif isinstance(s, While):
-            self.emit(d, 'WHILE ' + (f'{s.var},' if s.var else '') + self.r(s.cond), s); self.block(s.body, d + 1)
-        elif isinstance(s, Break): self.emit(d, s.kw, s)
-        elif isinstance(s, Continue): self.emit(d, s.kw, s)
-        elif isinstance(s, Return): self.emit(d, s.kw, s)
+            self.emit(d, self.kw('WHILE') + ' ' + (f'{s.var},' if s.var else '') + self.r(s.cond), s); self.block(s.body, d + 1)
+        elif isinstance(s, Break): self.emit(d, self.kw(s.kw), s)
+        elif isinstance(s, Continue): self.emit(d, self.kw(s.kw), s)
+        elif isinstance(s, Return): self.emit(d, self.kw(s.kw), s)
         elif isinstance(s, FuncDef):
-            self.emit(d, f'FUNC {s.name}' + ((' ' + ','.join(s.params)) if s.params else ''), s); self.block(s.body, d + 1)
+            self.emit(d, f'{self.kw("FUNC")} {s.name}' + ((' ' + self.comma().join(s.params)) if s.params else ''), s); self.block(s.body, d + 1)
         elif isinstance(s, Call):
-            self.emit(d, f'RUN {s.name}' + ((' ' + ','.join(self.r(a) for a in s.args)) if s.args else ''), s)
+            self.emit(d, f'{self.kw("RUN")} {s.name}' + ((' ' + self.comma().join(self.r(a) for a in s.args)) if s.args else ''), s)
         elif isinstance(s, Print):
-            if s.text is not None: self.emit(d, f'PRINT {s.text}', s)
-            else: self.emit(d, f'$PRINT {self.r(s.expr)}', s)
-        elif isinstance(s, Exist): self.emit(d, f'{"NOTEXIST" if s.neg else "EXIST"} {s.name}', s)
+            if s.text is not None: self.emit(d, f'{self.kw("PRINT")} {s.text}', s)
+            else: self.emit(d, f'{self.kw("$PRINT")} {self.r(s.expr)}', s)
+        elif isinstance(s, Exist): self.emit(d, f'{self.kw("NOTEXIST" if s.neg else "EXIST")} {s.name}', s)
         elif isinstance(s, Raw):
             first = True
             for rd, t in s.lines:
                 self.emit(d + rd, t, s if first else None); first = False
-        elif isinstance(s, Pass): self.emit(d, 'PASS', s)
+        elif isinstance(s, Pass): self.emit(d, self.kw('PASS'), s)
         else: raise TypeError(s)
 
 
